@@ -18,12 +18,8 @@ use std::collections::{BTreeMap, BTreeSet, HashMap, HashSet};
 
 #[derive(Clone, Copy, Default, Debug, PartialEq, Eq)]
 pub struct Quirks {
-    /// field uniqueness is not checked in object literals given to a custom scalar
-    pub custom_scalar_object_duplicates: bool,
     /// a variable nested in a list/object literal only needs the same named type as its location
     pub nested_var_named_only: bool,
-    /// variables inside an object literal given to a custom scalar need not be defined
-    pub custom_scalar_object_unchecked: bool,
 }
 
 pub type Violations = BTreeSet<&'static str>;
@@ -156,9 +152,9 @@ impl<'a> V<'a> {
 
     // ---------- §5.6 values ----------
     /// §5.6.3 applies to every object literal of the document, whatever its expected type
-    fn unique_fields(&mut self, o: &[(apollo_compiler::Name, apollo_compiler::Node<Value>)], in_scalar: bool) {
+    fn unique_fields(&mut self, o: &[(apollo_compiler::Name, apollo_compiler::Node<Value>)], _in_scalar: bool) {
         let mut seen: HashSet<&str> = HashSet::new();
-        for (k, _) in o { if !seen.insert(k.as_str()) && !(in_scalar && self.q.custom_scalar_object_duplicates) { self.v("InputObjectFieldUniqueness"); } }
+        for (k, _) in o { if !seen.insert(k.as_str()) { self.v("InputObjectFieldUniqueness"); } }
     }
 
     /// a value whose expected type is unknown: variables in it are uses, object literals have unique fields
@@ -707,7 +703,7 @@ pub fn validate(schema: &Schema, doc: &'_ ast::Document, q: Quirks) -> Outcome {
         for u in &usages {
             used.insert(u.name.as_str());
             match vars.get(u.name.as_str()) {
-                None => if !(u.in_scalar_object && q.custom_scalar_object_unchecked) { v.v("AllVariableUsesDefined") },
+                None => v.v("AllVariableUsesDefined"),
                 Some(def) => if let Some((lt, ld)) = &u.loc {
                     let ok = if u.nested && q.nested_var_named_only { named(&def.ty) == named(lt) } else { usage_allowed(&def.ty, def.default_value.as_deref(), lt, *ld) };
                     if !ok { v.v("AllVariableUsagesAllowed"); }
